@@ -111,6 +111,29 @@ fn big_values_for<T: Model>(ctx: &mut Ctx) -> Vec<T> {
     b
 }
 
+/// An encoder that is filled and then dropped without `finalize` (what a caller does on an early return), and an
+/// encode that unwinds half way: neither may leave anything behind that a later encode can see.
+pub fn abandon_encoder(k: usize) {
+    let mut scratch: Vec<u8> = vec![0xC3; k % 3];
+    {
+        let mut enc = ssz::SszEncoder::container(&mut scratch, 4 + (k % 2) * 4);
+        enc.append(&vec![0xD7u8; 1 + k % 5]);
+        if k % 2 == 1 {
+            enc.append(&(k as u32));
+        }
+        // dropped here, not finalized
+    }
+    if k % 7 == 0 {
+        let _ = catch_unwind(AssertUnwindSafe(|| {
+            let mut scratch: Vec<u8> = Vec::new();
+            let mut enc = ssz::SszEncoder::container(&mut scratch, 8);
+            enc.append(&vec![vec![0xE1u8; 3]; 2]);
+            enc.append_parameterized(false, |_b: &mut Vec<u8>| panic!("encoder callback unwinds"));
+            enc.finalize();
+        }));
+    }
+}
+
 pub fn run_enc<T: Model>(ctx: &mut Ctx) {
     let d = T::desc();
     let name = T::rust_name();
@@ -138,6 +161,7 @@ pub fn run_enc<T: Model>(ctx: &mut Ctx) {
         if !seen.insert(val.clone()) {
             continue;
         }
+        abandon_encoder(vi);
         let bytes = match catch_unwind(AssertUnwindSafe(|| v.as_ssz_bytes())) {
             Ok(b) => b,
             Err(_) => {
@@ -202,6 +226,18 @@ pub fn run_enc<T: Model>(ctx: &mut Ctx) {
                 want.extend_from_slice(&bytes);
                 ctx.out.r("C10", "entry", buf == want, &["append_prefix", "append", &d, &val, &hex(&p), &name]);
                 ctx.out.m("entry", &hex(&buf), &["append", &d, &val, &hex(&p)]);
+            }
+            {
+                // a buffer whose spare capacity is large and holds old data
+                let mut buf = vec![0xABu8; bytes.len() + 96];
+                buf.truncate(3);
+                v.ssz_append(&mut buf);
+                ctx.out.r("C10", "entry", buf[..3] == [0xAB; 3] && buf[3..] == bytes[..], &["append_into_dirty_spare_capacity", "enc", &d, &val, &name]);
+                // and one with no spare capacity at all
+                let mut buf = vec![0xCDu8; 5];
+                buf.shrink_to_fit();
+                v.ssz_append(&mut buf);
+                ctx.out.r("C10", "entry", buf[..5] == [0xCD; 5] && buf[5..] == bytes[..], &["append_into_full_buffer", "enc", &d, &val, &name]);
             }
             ctx.out.r("C10", "entry", ssz::ssz_encode(&v) == bytes, &["ssz_encode", "enc", &d, &val, &name]);
             ctx.out.r("C10", "entry", (&v).as_ssz_bytes() == bytes, &["ref", "enc", &d, &val, &name]);
@@ -532,5 +568,77 @@ fn d_short(d: &str) -> String {
         format!("{}..", &d[..40])
     } else {
         d.to_string()
+    }
+}
+
+
+// ---------------------------------------------------------------------------------------------
+// keys whose order is coarser than their encoding (C19: "a later duplicate key replacing an earlier one")
+
+/// ordered and compared by `id` alone; `note` is carried along and encoded
+#[derive(Clone, Debug, ssz_derive::Encode, ssz_derive::Decode)]
+pub struct CoarseKey {
+    pub id: u8,
+    pub note: Vec<u8>,
+}
+impl PartialEq for CoarseKey {
+    fn eq(&self, o: &Self) -> bool { self.id == o.id }
+}
+impl Eq for CoarseKey {}
+impl PartialOrd for CoarseKey {
+    fn partial_cmp(&self, o: &Self) -> Option<std::cmp::Ordering> { Some(self.cmp(o)) }
+}
+impl Ord for CoarseKey {
+    fn cmp(&self, o: &Self) -> std::cmp::Ordering { self.id.cmp(&o.id) }
+}
+
+/// Implementation-side oracle only (the model's collections are ordered by the whole key): decoding an entry list
+/// yields the collection in which every listed entry has replaced, key and value, any earlier entry with an equal key.
+pub fn run_coarse_keys(ctx: &mut Ctx) {
+    use std::collections::{BTreeMap, BTreeSet};
+    let mut g = Rng::new(ctx.seed ^ 0xc0a53);
+    let n = if ctx.thorough { 400 } else { 60 };
+    for case in 0..n {
+        let len = g.below(7);
+        let dom = 1 + g.below(4);
+        let keys: Vec<CoarseKey> = (0..len).map(|_| CoarseKey { id: g.below(dom) as u8, note: { let l = g.below(3); g.bytes(l) } }).collect();
+        // sets
+        let b = keys.as_ssz_bytes();
+        let hx = hex(&b);
+        let got = catch_unwind(AssertUnwindSafe(|| <BTreeSet<CoarseKey> as Decode>::from_ssz_bytes(&b)));
+        let mut want: Vec<CoarseKey> = Vec::new();
+        for k in &keys {
+            want.retain(|w| w.id != k.id);
+            want.push(k.clone());
+        }
+        want.sort_by_key(|k| k.id);
+        let ok = match &got {
+            Ok(Ok(s)) => s.iter().map(|k| (k.id, k.note.clone())).collect::<Vec<_>>() == want.iter().map(|k| (k.id, k.note.clone())).collect::<Vec<_>>(),
+            _ => false,
+        };
+        ctx.out.r("C19", "dec", ok, &["later_duplicate_replaces_earlier_entry", "coarse-set", &hx, &case.to_string()]);
+        // maps
+        let entries: Vec<(CoarseKey, Vec<u8>)> = keys.iter().map(|k| (k.clone(), { let l = g.below(3); g.bytes(l) })).collect();
+        let b = entries.as_ssz_bytes();
+        let hx = hex(&b);
+        let got = catch_unwind(AssertUnwindSafe(|| <BTreeMap<CoarseKey, Vec<u8>> as Decode>::from_ssz_bytes(&b)));
+        let mut want: Vec<(CoarseKey, Vec<u8>)> = Vec::new();
+        for (k, v) in &entries {
+            want.retain(|w| w.0.id != k.id);
+            want.push((k.clone(), v.clone()));
+        }
+        want.sort_by_key(|e| e.0.id);
+        let flat = |k: &CoarseKey, v: &Vec<u8>| (k.id, k.note.clone(), v.clone());
+        let ok = match &got {
+            Ok(Ok(m)) => m.iter().map(|(k, v)| flat(k, v)).collect::<Vec<_>>() == want.iter().map(|(k, v)| flat(k, v)).collect::<Vec<_>>(),
+            _ => false,
+        };
+        ctx.out.r("C19", "dec", ok, &["later_duplicate_replaces_earlier_entry", "coarse-map", &hx, &case.to_string()]);
+        if let Ok(Ok(m)) = &got {
+            // re-encoding the decoded collection is a fixed point
+            let e1 = m.as_ssz_bytes();
+            let again = <BTreeMap<CoarseKey, Vec<u8>> as Decode>::from_ssz_bytes(&e1).map(|m2| m2.as_ssz_bytes());
+            ctx.out.r("C19", "dec", matches!(&again, Ok(e2) if *e2 == e1), &["reencode_fixed_point", "coarse-map", &hx, &case.to_string()]);
+        }
     }
 }
